@@ -14,8 +14,8 @@ CHECKS = {
    text="Scaling chains (1..6 chunks up and down, 2-5 rounds) drained by committing tasks taken from the served (limited) view in random order with interleaved failovers, rebalances and requests that must be refused; end-of-round oracle: no pending migration, full stable partition, counts differ <=1, exactly trailing chunks slot-less and released; bounded number of commits (liveness).", note="auto_scale_node_number's TCP wait is stubbed: its two storage halves are driven separately.", ref="§7 C10"),
  "C12": dict(engine=E1, cat="exploration", tech="deterministic simulation: seeded histories over skewed host layouts; resource-accounting oracle after every operation, refused requests must leave no trace, panics = violation",
    text="Histories over skewed host/proxy layouts; after every operation: membership vs free pool exact complements, broker's own check passes, refused allocations leave the store byte-identical (modulo global epoch), new chunks span two hosts, replacement host rule; a panic/abort of the child is a violation.", note="Ordered mode gives every proxy its own host (StatefulSet assumption).", ref="§7 C12"),
- "C13": dict(engine=E1, cat="fault_enumeration", tech="deterministic simulation with crash-point enumeration: every prefix of each seeded history is a crash point; restart from that snapshot + epoch recovery with sampled installed-epoch distributions",
-   text="For each seeded history EVERY prefix is enumerated as a crash point: the real service is restarted from that snapshot, the largest installed proxy epoch (sampled distribution over epochs actually served) is injected, recover_epoch runs, and every view served afterwards must exceed it and satisfy the partition oracle.", note="fetch_max_epoch (TCP) is replaced by hook H7; E2 live part is listed in DESIGN §7 C13.", ref="§7 C13"),
+ "C13": dict(engine="E1 broker-sim + E2 cluster-sim", cat="fault_enumeration", tech="deterministic simulation with crash-point enumeration: every prefix of each seeded history is a crash point; restart from that snapshot + epoch recovery with sampled installed-epoch distributions",
+   text="For each seeded history EVERY prefix is enumerated as a crash point: the real service is restarted from that snapshot, the largest installed proxy epoch (sampled distribution over epochs actually served) is injected, recover_epoch runs, and every view served afterwards must exceed it and satisfy the partition oracle. One run in eight is a live E2 run: the broker of a running cluster (real coordinators, proxies, migrations, faults) is replaced by an instance restored from a 0-4 s old snapshot, the largest proxy epoch is collected over SimNet, recovery runs, and within 30 virtual s all reachable proxies must hold the recovered view.", note="fetch_max_epoch (TCP) is replaced by hook H7 (the harness collects UMCTL GETEPOCH over SimNet).", ref="§7 C13"),
  "C18": dict(engine=E1, cat="exploration", tech="deterministic simulation with clock control: seeded report/query/registration histories on a virtual clock; quorum-of-fresh-distinct-reporters model",
    text="Report/query/clock-jump/registration histories on the virtual wall clock (hook H3), 5 reporters, quorum 1..4, ttl 2/60 s with jumps at ttl-1/ttl/ttl+1; listed => registered and >= quorum distinct reporters with a report no older than ttl; re-registration clears.", note="One-directional oracle as the property is; boundary age == ttl accepted either way.", ref="§7 C18"),
  "C11": dict(engine="E4 shuttle-sim", cat="exploration", tech="deterministic simulation of thread interleavings: shuttle-controlled threads on the real TaskBlockingQueue switching at hooks before every atomic access; seeded random + PCT schedules; replayable schedule",
@@ -24,6 +24,8 @@ CHECKS = {
    text="Real broker, real coordinator loops and 2-6 real proxies around a Redis model on a simulated network with seeded per-message latencies; a cluster is scaled out/in by one chunk while 2-4 clients run 80-260 string/counter/list operations (incl. DEL/LPOP/RPOP, hot keys whose migration lock slot collides with quiet keys) through random proxies following MOVED. Oracle 1: every key's invoke/return history (global event numbers) is linearizable against a sequential register/list model. Oracle 2 after commit+quiescence: every key exists exactly once, on the broker-designated owner, with a value allowed by the linearizations; no copy anywhere else.", note="Message-level interleavings on a single-threaded runtime (thread-level races of the barrier are C11's). SimRedis is the Redis specification for these runs. Fault-free network by design: the property quantifies over interleavings.", ref="§7 C03"),
  "C19": dict(engine="E2 cluster-sim", cat="exploration", tech="deterministic whole-system simulation with fault injection (buggified PTTL replies, SCAN duplicates, virtual-clock expiry): every RESTORE observed at the Redis model is matched with the PTTL readings of its transfer",
    text="Same migration runs with a TTL key population (30 ms..1 h on the virtual clock, and persistent keys); every third run the source nodes answer PTTL with a buggified value {0,1,2,999,2^63-1,-1,malformed}. At the receiving SimRedis every successful RESTORE must be consistent with at least one PTTL reading of that transfer: -1 => ttl 0; p>=1 => 1<=ttl<=p; 0 => not persistent.", note="The three transfer paths are distinguished only by which component issued the PTTL (scan client vs. proxy backend); all are covered by the same oracle at the Redis model.", ref="§7 C19"),
+ "C07": dict(engine="E2 cluster-sim", cat="exploration", tech="deterministic whole-system simulation with fault injection: message drop/duplicate/reset/stall on coordinator calls, coordinator crash/restart, proxy restart with empty state, unreachable proxies; safety over the recorded call log + bounded-liveness convergence oracle after faults stop",
+   text="Real broker, 1-2 real coordinators (all four production loops), 4-8 real proxies. Within a 12 s fault window the plan injects directed and random message faults on coordinator->proxy and coordinator->broker calls, coordinator crashes at arbitrary instants, proxy restarts with empty state, proxies unreachable for 0.3-8 s (detector -> quorum -> failover). Safety: accepted SETCLUSTER/SETREPL epochs strictly increase per proxy incarnation, GETEPOCH never decreases, every migration committed at most once, destination updated before source inside a migration-sync round. Liveness: 30 virtual s after the last fault every reachable non-failed proxy reports the broker's epoch, advertises the broker's slot map, its Redis nodes have the broker's replication roles, and no finished migration is uncommitted.", note="Liveness bound B=30 s virtual (fault-free convergence < 3 s). The operator's re-registration of healed proxies is part of 'faults stop'. dst-before-src is judged only with migration_limit=1 where rounds cannot interleave.", ref="§7 C07"),
 }
 NOT_APPLICABLE = {
  "C02": "not yet built in this tree: cluster-sim (E2) check under construction; see DESIGN §11.1",
